@@ -20,19 +20,22 @@ Record loader := mk_loader {
   l_dev : option N;                            (* manifest_device *)
   l_next : N;                                  (* next fresh entry identity *)
   l_opts : options;
-  l_signed : bool                              (* openpgp_signed of the top-level Manifest *)
+  l_signed : bool;                             (* openpgp_signed of the top-level Manifest *)
+  l_detached : list (N * entry)                (* entry objects removed from their list but still referenced *)
 }.
 
 Definition set_loaded (l : loader) (x : list (list N * mfile)) : loader :=
-  mk_loader (l_top l) x (l_updated l) (l_dev l) (l_next l) (l_opts l) (l_signed l).
+  mk_loader (l_top l) x (l_updated l) (l_dev l) (l_next l) (l_opts l) (l_signed l) (l_detached l).
 Definition set_updated (l : loader) (x : list (list N)) : loader :=
-  mk_loader (l_top l) (l_loaded l) x (l_dev l) (l_next l) (l_opts l) (l_signed l).
+  mk_loader (l_top l) (l_loaded l) x (l_dev l) (l_next l) (l_opts l) (l_signed l) (l_detached l).
 Definition set_dev (l : loader) (x : option N) : loader :=
-  mk_loader (l_top l) (l_loaded l) (l_updated l) x (l_next l) (l_opts l) (l_signed l).
+  mk_loader (l_top l) (l_loaded l) (l_updated l) x (l_next l) (l_opts l) (l_signed l) (l_detached l).
 Definition set_next (l : loader) (x : N) : loader :=
-  mk_loader (l_top l) (l_loaded l) (l_updated l) (l_dev l) x (l_opts l) (l_signed l).
+  mk_loader (l_top l) (l_loaded l) (l_updated l) (l_dev l) x (l_opts l) (l_signed l) (l_detached l).
 Definition set_top (l : loader) (x : list N) : loader :=
-  mk_loader x (l_loaded l) (l_updated l) (l_dev l) (l_next l) (l_opts l) (l_signed l).
+  mk_loader x (l_loaded l) (l_updated l) (l_dev l) (l_next l) (l_opts l) (l_signed l) (l_detached l).
+Definition set_detached (l : loader) (x : list (N * entry)) : loader :=
+  mk_loader (l_top l) (l_loaded l) (l_updated l) (l_dev l) (l_next l) (l_opts l) (l_signed l) x.
 Definition add_updated (l : loader) (p : list N) : loader :=
   if mem_str p (l_updated l) then l else set_updated l (l_updated l ++ [p]).
 
@@ -168,9 +171,9 @@ Section Loader.
      directory of the model *)
   Definition new_loader (w : world) (top : list N) (opts : options) (allow_create allow_xdev : bool)
     : res loader :=
-    let l0 := mk_loader top [] [] None 0 opts false in
+    let l0 := mk_loader top [] [] None 0 opts false [] in
     '(l1, m) <- load_manifest w l0 top None allow_create (negb allow_xdev) ;;
-    Ok (mk_loader (l_top l1) (l_loaded l1) (l_updated l1) (l_dev l1) (l_next l1) (l_opts l1) (mf_signed m)).
+    Ok (mk_loader (l_top l1) (l_loaded l1) (l_updated l1) (l_dev l1) (l_next l1) (l_opts l1) (mf_signed m) (l_detached l1)).
 
   (* ---- lookups ------------------------------------------------------------------------ *)
   Fixpoint first_some {A B} (f : A -> option B) (l : list A) : option B :=
